@@ -208,3 +208,51 @@ claim(
     'typestate over enumerated loop paths, dominance (must-facts), reaching '
     'definitions, post-dominance for adopt->write',
     'DESIGN.md §4 C05')
+
+claim(
+    'C01', 'other',
+    'Decides the adoption discipline the behavioural statement rests on, '
+    'statically: (R1) every result tagged successful is dominated by a true '
+    'outcome of checker.check_exprs(v) and ships the same definition of v; '
+    'failures ship no list; (R2) every adoption and every output write is '
+    'dominated by the success flag of the result it reads, writes happen '
+    'only at the adoption sites, after the adoption, with the adopted list; '
+    '(R3) only nodeio.write_smtlib_to_file writes the output path and '
+    'nothing writes the input file (file-effect inventory with path '
+    'provenance); (R4) the candidate file is written completely and closed '
+    'before the command starts, its name depends on os.getpid() at call '
+    'time, processes are started only by checker.execute from check/'
+    'do_golden_runs; (R5) the acceptance predicate and wiring are the '
+    'documented ones (C09.R1-R3 re-run). Exit 0 does NOT mean the command '
+    'was run on the final file.',
+    'Partial: command behaviour, token equality across renderers (C07, on '
+    'which C01 depends) and pickling fidelity (C12) are separate checks. '
+    'Trusted: CPython ast; /verif/sa dataflow; namedtuple field order as '
+    'folded from the source.',
+    'dominance (must-facts) + reaching definitions for "same list"; '
+    'who-may-write / who-may-call over resolved call sites; truth-table '
+    'comparison of the acceptance predicate',
+    'DESIGN.md §4 C01')
+
+claim(
+    'C02', 'other',
+    'Decides the structural facts from which the fixed point follows under '
+    'the stated assumptions about multiprocessing.Pool: (R1) the last '
+    'hierarchical pass is a bare list naming every registered mutator under '
+    'its own toggle (folded, shared with C14); (R2) finite abstract '
+    'interpretation of strategy_hierarchical.reduce over skip{<=0,any} x '
+    'fresh_run x reduction x abort x (skip,abort at the sweep\'s generate '
+    'call): every exit of the sweep loop is reached only in a state "fresh '
+    'run, no reduction, generated from node 0, flag clear"; the flag is set '
+    'only in the adoption blocks; (R3) results read while the flag is set '
+    'are skipped; (R4) on every non-aborted path the producer consults '
+    'filter, mutations AND global_mutations of every mutator, every '
+    'proposal becomes a task, the skip guard is linear and admits every node '
+    'when skip <= 0; (R5) sweeps start from re-duplicated inputs.',
+    'Partial: schedules are not explored; Pool delivers one result per task '
+    '(assumed); raising candidates count as failures. The lowering of skip '
+    'for discarded results is an efficiency measure and deliberately not '
+    'demanded. Trusted: CPython ast, /verif/sa CFG, folder.',
+    'finite abstract interpretation on the CFG (product domain), per-path '
+    'hook coverage, linear-form guard check, folding of the pass builder',
+    'DESIGN.md §4 C02')
